@@ -104,78 +104,130 @@ func runWorker(insts []Instance, dl time.Time) {
 	sc := bufio.NewScanner(os.Stdin)
 	out := json.NewEncoder(os.Stdout)
 	for sc.Scan() {
-		var idx int
-		if _, err := fmt.Sscan(sc.Text(), &idx); err != nil || idx < 0 || idx >= len(insts) {
+		var idx, b int
+		if _, err := fmt.Sscan(sc.Text(), &idx, &b); err != nil || idx < 0 || idx >= len(insts) {
 			continue
 		}
-		st := vs.Explore(cfgOf(insts[idx], dl), insts[idx].Scenario)
+		cfg := cfgOf(insts[idx], dl)
+		cfg.MinBound, cfg.Bound = b, b
+		st := vs.Explore(cfg, insts[idx].Scenario)
 		_ = out.Encode(result{Index: idx, Stats: st})
 	}
 }
 
+// runParent explores in rounds: every instance at bound 0, then every instance
+// at bound 1, ... so that a deadline cuts all instances at the same depth.
 func runParent(insts []Instance, tier, only string, bound int, dl time.Time) ([]vs.Stats, string) {
 	n := runtime.NumCPU()
 	if n > len(insts) {
 		n = len(insts)
 	}
 	stats := make([]vs.Stats, len(insts))
-	got := make([]bool, len(insts))
-	work := make(chan int, len(insts))
-	for i := range insts {
-		work <- i
+	for i := range stats {
+		stats[i] = vs.Stats{Instance: insts[i].Name, Outcomes: map[string]int{}, BoundCompleted: -1, Exhaustive: true}
 	}
-	close(work)
+	type task struct{ idx, bound int }
+	type wk struct {
+		cmd *exec.Cmd
+		in  interface{ Write([]byte) (int, error) }
+		rd  *bufio.Reader
+		cl  func()
+	}
 	var mu sync.Mutex
 	infra := ""
-	var wg sync.WaitGroup
+	workers := make([]*wk, 0, n)
 	for w := 0; w < n; w++ {
-		wg.Add(1)
-		go func() {
-			defer wg.Done()
-			args := []string{"-tier", tier, "-worker", "-deadline", fmt.Sprint(dl.Unix())}
-			if only != "" {
-				args = append(args, "-only", only)
-			}
-			if bound >= 0 {
-				args = append(args, "-bound", fmt.Sprint(bound))
-			}
-			cmd := exec.Command(os.Args[0], args...)
-			cmd.Stderr = os.Stderr
-			in, _ := cmd.StdinPipe()
-			outp, _ := cmd.StdoutPipe()
-			if err := cmd.Start(); err != nil {
-				mu.Lock()
-				infra = err.Error()
-				mu.Unlock()
-				return
-			}
-			rd := bufio.NewReaderSize(outp, 1<<20)
-			for idx := range work {
-				fmt.Fprintln(in, idx)
-				line, err := rd.ReadBytes('\n')
-				var res result
-				if err != nil || json.Unmarshal(line, &res) != nil {
-					mu.Lock()
-					infra = fmt.Sprintf("worker died on instance %s: %v", insts[idx].Name, err)
-					mu.Unlock()
-					break
-				}
-				mu.Lock()
-				stats[res.Index] = res.Stats
-				got[res.Index] = true
-				if res.Stats.Infra != "" {
-					infra = res.Stats.Instance + ": " + res.Stats.Infra
-				}
-				mu.Unlock()
-			}
-			in.Close()
-			_ = cmd.Wait()
-		}()
+		args := []string{"-tier", tier, "-worker", "-deadline", fmt.Sprint(dl.Unix())}
+		if only != "" {
+			args = append(args, "-only", only)
+		}
+		cmd := exec.Command(os.Args[0], args...)
+		cmd.Stderr = os.Stderr
+		in, _ := cmd.StdinPipe()
+		outp, _ := cmd.StdoutPipe()
+		if err := cmd.Start(); err != nil {
+			return stats, err.Error()
+		}
+		workers = append(workers, &wk{cmd: cmd, in: in, rd: bufio.NewReaderSize(outp, 1<<20), cl: func() { in.Close() }})
 	}
-	wg.Wait()
-	for i := range got {
-		if !got[i] && infra == "" {
-			infra = "no result for instance " + insts[i].Name
+	defer func() {
+		for _, w := range workers {
+			w.cl()
+			_ = w.cmd.Wait()
+		}
+	}()
+	maxBound := 0
+	for _, in := range insts {
+		if in.Bound > maxBound {
+			maxBound = in.Bound
+		}
+	}
+	for b := 0; b <= maxBound && infra == ""; b++ {
+		var tasks []task
+		for i, in := range insts {
+			if in.Bound >= b && len(stats[i].Failures) == 0 && stats[i].BoundCompleted == b-1 {
+				tasks = append(tasks, task{i, b})
+			}
+		}
+		if len(tasks) == 0 {
+			break
+		}
+		work := make(chan task, len(tasks))
+		for _, t := range tasks {
+			work <- t
+		}
+		close(work)
+		var wg sync.WaitGroup
+		for _, w := range workers {
+			w := w
+			wg.Add(1)
+			go func() {
+				defer wg.Done()
+				for t := range work {
+					fmt.Fprintf(w.in, "%d %d\n", t.idx, t.bound)
+					line, err := w.rd.ReadBytes('\n')
+					var res result
+					if err != nil || json.Unmarshal(line, &res) != nil {
+						mu.Lock()
+						infra = fmt.Sprintf("worker died on instance %s (bound %d): %v", insts[t.idx].Name, t.bound, err)
+						mu.Unlock()
+						return
+					}
+					mu.Lock()
+					st := &stats[res.Index]
+					r := res.Stats
+					st.Executions += r.Executions
+					st.Steps += r.Steps
+					if r.States > st.States {
+						st.States = r.States
+					}
+					st.Distinct += r.Distinct
+					st.SpinCuts += r.SpinCuts
+					if r.MaxSteps > st.MaxSteps {
+						st.MaxSteps = r.MaxSteps
+					}
+					for k, v := range r.Outcomes {
+						st.Outcomes[k] += v
+					}
+					st.Failures = append(st.Failures, r.Failures...)
+					if r.BoundCompleted == t.bound {
+						st.BoundCompleted = t.bound
+					}
+					if r.Infra != "" {
+						infra = r.Instance + ": " + r.Infra
+					}
+					mu.Unlock()
+				}
+			}()
+		}
+		wg.Wait()
+		if time.Now().After(dl) {
+			break
+		}
+	}
+	for i, in := range insts {
+		if len(stats[i].Failures) == 0 && stats[i].BoundCompleted < in.Bound {
+			stats[i].Exhaustive = false
 		}
 	}
 	return stats, infra
